@@ -13,6 +13,9 @@ from .model import busmodel
 KNOBS = ["blank", "indent", "trailing", "linecomment", "eolcomment", "blockcomment", "opspace", "commaspace", "bracketspace",
          "assignspace", "case_mnemonic", "case_suffix", "case_index", "case_hex", "include", "eof"]
 
+# not part of the default set (C16's statement does not list it): several statements on one line
+EXTRA_KNOBS = ["join"]
+
 COMMENT_WORDS = ["todo", "x = 1", "lda #0", "'quoted'", "/* not a block */", "{ }", ";;", "a:b", ".db 1", "*=0x8000", "(", "end",
                  # characters that some line-splitting routines (not the assembler's grammar) take for line ends
                  "page\x0cbreak", "v\x0bt", "ls\u2028ps\u2029", "nel\x85", "fs\x1cgs\x1drs\x1e", "caf\u00e9"]
@@ -200,13 +203,8 @@ class Renderer:
             out.append([f".include '{st['f']}'", st])
         elif k == "map":
             s = st["spec"]
-            lo, hi, mask = busmodel.WINDOWS[s["win"]]
-            line = (f".map identifier={s['id']} bank_range=0x{s['first']:02x}, 0x{s['last']:02x} "
-                    f"addr_range=0x{lo:04x}, 0x{hi:04x} mask=0x{mask:x}")
-            if s.get("ram"):
-                line += " writable=1"
-            if s.get("mirror"):
-                line += f" mirror_bank_range=0x{s['mirror'][0]:02x}, 0x{s['mirror'][1]:02x}"
+            # the numbers of a .map may be written in any base
+            line = busmodel.map_line(s, (s["first"] * 5 + s["last"]) % 3)
             out.append([line, st])
         elif k == "raw":
             for ln in st["lines"]:
@@ -242,11 +240,34 @@ class Renderer:
         self.body(stmts, lines, fname)
         return self.finish(lines, fname)
 
+    _JOINABLE = {"org", "reloc", "label", "data", "ascii", "text", "const", "table"}
+
+    def _join(self, lines: list) -> list:
+        """several statements on one line: a label (or a directive, a position, a definition, an opening / closing brace)
+        followed on the same line by the next statement -- the conventional `label: lda #5` style.  Only an instruction
+        needs the end of its line."""
+        lay, rng = self.lay, self.lay.rng
+        out: list = []
+        carry = False
+        for ln, st in lines:
+            if carry:
+                out[-1][0] = out[-1][0] + rng.choice([" ", "  ", "\t"]) + ln
+                lay.used["join"] = lay.used.get("join", 0) + 1
+            else:
+                out.append([ln, st])
+            first_kind = st["k"] if st is not None else None
+            ends_ok = (first_kind in self._JOINABLE) or (st is None and (ln == "}" or ln.endswith("{")) and not ln.endswith("({"))
+            # what was appended decides whether the line may go on: the last statement on it must be joinable too
+            carry = bool(ends_ok and not (st is not None and st.get("_marker")) and rng.random() < 0.3)
+        return out
+
     def finish(self, lines: list, fname: str) -> str:
         """applies the line-level layout: blank lines, indentation, trailing spaces, comments"""
         lay = self.lay
         text: list[str] = []
         rng = lay.rng
+        if rng is not None and "join" in lay.knobs:
+            lines = self._join(lines)
         for ln, st in lines:
             if rng is not None:
                 while lay.on("blank", 0.15):
